@@ -53,7 +53,11 @@ type bindCase struct {
 	Expect string  `json:"expect"`
 	Tv     []btvJ  `json:"tv"`
 	Wr     []bwrJ  `json:"wr"`
-	NT     bool    `json:"nt"`
+	Tagged []struct {
+		I int   `json:"i"`
+		V bvalJ `json:"v"`
+	} `json:"tagged"`
+	NT bool `json:"nt"`
 }
 
 // which fields a successful copy writes (tree parallel to the descriptor)
@@ -439,6 +443,19 @@ func judgeBind(c *bindCase, st reflect.Type, path string, run func(target any) e
 		if c.TK == "ptr-slice" || c.TK == "ptr-slice-int" {
 			if now := fmt.Sprintf("%#v", after); now != before {
 				return "slice target changed although Bind returned an error: before " + before + ", after " + now, "slice-changed-on-error", o
+			}
+		}
+	case "any":
+		// the outcome is open, but a success must have put every entry whose key is a field's tag into that field
+		if err == nil && c.TK == "ptr-struct" {
+			got := reflect.ValueOf(after)
+			for _, tg := range c.Tagged {
+				if tg.I >= 1 && tg.I <= got.NumField() && got.Field(tg.I-1).CanInterface() {
+					if want := goVal(tg.V); !reflect.DeepEqual(got.Field(tg.I-1).Interface(), want) {
+						return fmt.Sprintf("Bind returned nil but the entry whose key is the tag of field %s is not there: field holds %#v, the block has %#v (target %+v)",
+							got.Type().Field(tg.I-1).Name, got.Field(tg.I-1).Interface(), want, after), "nil-for-error", o
+					}
+				}
 			}
 		}
 	case "nil":
